@@ -34,7 +34,9 @@ CHECKS.update({
  "C17": ("SlotTable.tla + TLC: all interleavings of fresh/numeric/named to depth 4/5 with invariants FreshIsNew, NamesInjective, RoundTrip; every behaviour replayed in a fresh thread",
          "fresh slots are new, distinct names denote distinct slots, print/parse round-trips, on every interleaving of the bounded model", "5 C17"),
 })
-NOTES = {"C19": SMALL_NOTE, "C17": SMALL_NOTE}
+CHECKS["C10"] = ("Group.tla (brute-force subgroup closure) + TLC: every (subgroup, <=3 generators) transition of S2-S4 replayed on the real Group via hook H1 and through unions in the e-graph; TraceGroup.tla validates recorded random cases on 5/6 points",
+         "membership, enumeration, order, orbits and growth flag agree with the generated subgroup; permuted copies are equal in the e-graph exactly for group members", "5 C10")
+NOTES = {"C19": SMALL_NOTE, "C17": SMALL_NOTE, "C10": SMALL_NOTE}
 PENDING = {}  # filled below for every property without a check yet
 
 man = {
@@ -44,7 +46,7 @@ man = {
    "guard": "--cfg slotted_egraphs_verif",
    "enable": "rustflags in /verif/harness/.cargo/config.toml: --cfg slotted_egraphs_verif --check-cfg cfg(slotted_egraphs_verif); the harness depends on /repo by path and patches slotted-egraphs-derive to /repo/slotted-egraphs-derive",
    "baseline_off_cmd": "cd /repo && cargo test --workspace --no-fail-fast --offline",
-   "source_commits": [],
+   "source_commits": ["ec9eabe"],
    "fix_commits": ["c3020f8"],
    "add_only": True,
  },
